@@ -85,6 +85,7 @@ def _run_shard(jobdir, idx, lines, exe, fmode, cfgname, san, keep, l2=False):
     restarts = run_driver(exe, stimf, tracef, fmode, san)
     t1 = time.time()
     viol, hits, end = P.validate_trace(tracef, sdir, 't')
+    names = sorted(P.LAST_NAMES)
     t2 = time.time()
     sigs, nlines, violations, ops = P.analyse(tracef, viol, hits, cfgname)
     l2_calls, l2_drift = 0, []
@@ -119,7 +120,7 @@ def _run_shard(jobdir, idx, lines, exe, fmode, cfgname, san, keep, l2=False):
             h = h64(sg)
             table[h] = table.get(h, 0) | (1 << pi)
     res = dict(lines=end, ops=ops, restarts=restarts, skipped=skipped, sample=sample,
-               sigtable=table,
+               sigtable=table, names=names,
                nlines=nlines, violations=violations, t_driver=t1 - t0, t_tlc=t2 - t1, l2_calls=l2_calls, l2_drift=l2_drift[:20],
                l2_drift_n=len(l2_drift))
     if not keep and not violations:
@@ -221,9 +222,10 @@ def run_job(mc, drv, fmode=0, max_stims=None, seed=0, shard_size=None, keep=Fals
                 for i, sh in enumerate(shards)]
         table = {}
         merged = dict(lines=0, ops=0, restarts=0, skipped=0, sample=[], nlines={}, violations=[],
-                      t_driver=0.0, t_tlc=0.0, l2_calls=0, l2_drift_n=0, l2_drift=[])
+                      t_driver=0.0, t_tlc=0.0, l2_calls=0, l2_drift_n=0, l2_drift=[], names=[])
         for f in futs:
             r = f.result()
+            merged['names'] = sorted(set(merged['names']) | set(r.get('names', [])))
             for k in ('lines', 'ops', 'restarts', 'skipped', 't_driver', 't_tlc', 'l2_calls', 'l2_drift_n'):
                 merged[k] += r[k]
             merged['l2_drift'] += r['l2_drift'][:5]
